@@ -52,6 +52,38 @@ def run_ms(ctx, kind):
                            "the real-time probes (msreal) measure the property's bounds with the wall clock on a live server instance; assumptions A1–A4 of Slock/Properties/C05Ms.lean")
 
 
+MSUPD_THEOREMS = ["Slock.C06MsUpdate." + t for t in (
+    "ms_update_equal_is_counts_only ms_update_ignored_shortening_violated ms_update_ignored_lengthening_violated "
+    "parked_hold_small_value_fires parked_hold_large_value_read_as_ms parked_hold_reterm_early_violated "
+    "parked_hold_not_before_park_end_partial").split()]
+
+
+def run_ms_update(ctx, prefixes):
+    """C06 / C17: update (flag 0x02) or re-lock of a hold whose expiry entry is in the second wheel / the long table / parked in the
+    millisecond table / handed over from it, new terms in either unit (harness mode msupd; monitors only)."""
+    if "C06:" in prefixes and ctx.lake_build(["Slock.Properties.C06MsUpdate"]):
+        ctx.audit("Slock.Properties.C06MsUpdate", MSUPD_THEOREMS)
+    exe = ctx.build_harness("server", only=MS_FILES)
+    if not exe:
+        return
+    thorough = ctx.tier == "thorough"
+    seeds = [ctx.seed] if not thorough else [ctx.seed, ctx.seed + 1, ctx.seed + 2]
+    for sd in seeds:
+        outdir = ctx.run_harness(exe, "msupd", 56 if thorough else 28, seed=sd, timeout=900)
+        if not outdir:
+            continue
+        engine_common.read_monitor(ctx, outdir, "msupd", prefixes)
+        sp = os.path.join(outdir, "msupd.stats")
+        if os.path.exists(sp):
+            import json
+            dist = ctx.cov.setdefault("distribution", {})
+            for k, v in json.load(open(sp)).items():
+                dist["msupd:" + k] = dist.get("msupd:" + k, 0) + v
+    ctx.assumptions.append("update / re-lock x millisecond unit (mode msupd): real LockDB, real park goroutines in wall time, second wheel on the virtual clock; 4 places of the "
+                           "expiry entry x update / re-lock x 7 new terms; monitors only (bounds of the statement measured from the update), no model line; the deferred "
+                           "key-record removal pass (a parked background loop) is run the way Close runs it before the leak check")
+
+
 def run_ms_follower(ctx):
     """C10, millisecond unit: a replicated millisecond hold on a non-leader node is deferred, never ended by the node's own clock."""
     if ctx.lake_build(["Slock.Proofs.MsWheel"], exe=True):
@@ -73,7 +105,7 @@ def is_ms_replay(path):
     import json
     try:
         r = json.load(open(path)).get("replay")
-        return isinstance(r, dict) and r.get("mode") in ("msw", "msreal", "mswf")
+        return isinstance(r, dict) and r.get("mode") in ("msw", "msreal", "mswf", "msupd")
     except Exception:
         return False
 
@@ -85,8 +117,12 @@ def replay_ms(prop, path):
     try:
         r = json.load(open(path))["replay"]
         exe = ctx.build_harness("server", only=MS_FILES)
-        env = {"VERIF_MS_KIND": r.get("kind", "both"), "VERIF_MS_T": str(r["T"]), "VERIF_MS_FRAC": str(r.get("issued_at_ms_of_second", 930))}
         mode = r["mode"]
+        if mode == "msupd":
+            env = {"VERIF_MSUPD_CASE": str(r.get("case", -1))}
+            r.setdefault("T", f"{r.get('base')} / {r.get('op')} / {r.get('new')}")
+        else:
+            env = {"VERIF_MS_KIND": r.get("kind", "both"), "VERIF_MS_T": str(r["T"]), "VERIF_MS_FRAC": str(r.get("issued_at_ms_of_second", 930))}
         outdir = ctx.run_harness(exe, mode, 1, seed=r.get("seed", 1), extra=env, timeout=300)
         n = 0
         dis = ctx.diff(outdir, mode) if mode in ("msw", "mswf") else []
